@@ -1,0 +1,20 @@
+//! Stand-in for the two names of `nanorand` the engine uses: the runtime picks the number.
+use super::{rt, ChoiceKind, Param};
+
+pub struct TlsRng;
+
+pub fn tls_rng() -> TlsRng {
+    TlsRng
+}
+
+pub trait Rng {
+    fn generate(&mut self) -> usize;
+}
+
+impl Rng for TlsRng {
+    fn generate(&mut self) -> usize {
+        let r = rt();
+        let n = r.param(Param::RandomArity).max(1);
+        r.choose(ChoiceKind::Random, n)
+    }
+}
